@@ -8,7 +8,7 @@ From Coq Require Import Reals ZArith Lra Lia Bool List PrimFloat.
 From Flocq Require Import Zaux Raux Generic_fmt Round_NE.
 From PR Require Import Model.Grid Model.CropBase Model.Crop Proofs.Grid_real Proofs.C11_crop.
 From PR Require Import Base.ZX Base.Num Base.RNum Base.F64 Base.Slice Model.Partition Model.Blockwise Model.Gradient
-     Gen.GenC09 Proofs.C09_newton Proofs.C09_scan Proofs.C09_kernels Proofs.C09_blocks Proofs.C09_main Proofs.C09_gen Proofs.C09_c11 Proofs.C09_legacy.
+     Gen.GenC09 Proofs.C09_newton Proofs.C09_scan Proofs.C09_kernels Proofs.C09_blocks Proofs.C09_main Proofs.C09_gen Proofs.C09_c11 Proofs.C09_legacy Proofs.C09_graph.
 Import ListNotations.
 Open Scope R_scope.
 
@@ -352,3 +352,19 @@ Theorem C09_legacy_partition_loses_seam_refuted :
 Proof. repeat split; vm_compute; reflexivity. Qed.
 Print Assumptions C09_legacy_partition_loses_seam_refuted.
 
+(* ---------------- lazy results are pure: several decompositions in ONE dask computation ----------------
+   resample_blocks gives every task the key (name, block position); computing several lazy arrays together merges their
+   graphs.  With pairwise different names every array reads back exactly the blocks it reads alone (any number of arrays,
+   induction over the list of graphs); the harness checks on every run that the real names of different decompositions
+   differ and that joint evaluation equals stand-alone evaluation *)
+Theorem C09_joint_computation_pure : forall (V : Type) (gs : list (Z * list ((Z * Z) * V))), NoDup (map fst gs) ->
+  forall n b ps, In (n, b) gs -> read_array (merge_graphs gs) n ps = read_array (graph_of n b) n ps.
+Proof. intros V. exact (@merged_graph_pure V). Qed.
+Print Assumptions C09_joint_computation_pure.
+(* ... and the names must differ: two decompositions (one block / two blocks) under the SAME name, computed together:
+   the second array reads the first one's block at position (0,0) *)
+Theorem C09_joint_same_name_refuted :
+  (read_array (graph_of 7 [((0, 0), 100)] ++ graph_of 7 [((0, 0), 1); ((1, 0), 2)]) 7 [(0, 0); (1, 0)] = [Some 100; Some 2] /\
+   read_array (graph_of 7 [((0, 0), 1); ((1, 0), 2)]) 7 [(0, 0); (1, 0)] = [Some 1; Some 2])%Z.
+Proof. split; reflexivity. Qed.
+Print Assumptions C09_joint_same_name_refuted.
